@@ -83,7 +83,7 @@ class Gen:
             if k == "start_flow":
                 js = self.later(i, n)
                 if js:
-                    if r.random() < 0.4:
+                    if r.random() < 0.5:
                         self.nref += 1
                         refs.append(f"$r{self.nref}")
                         return [f"start {self.call(js[0])} as $r{self.nref}"]
@@ -122,6 +122,10 @@ class Gen:
                 return [f"{kw} {self.action()} {op} {self.action()}"]
             if k == "stop_ref" and refs:
                 return [f"send {r.choice(refs)}.Stop()"]
+            if k == "match_ref" and refs:
+                # wait for the end of a flow started earlier: the waiting flow ends in the very event in
+                # which that flow ends, while siblings started later may still have starts / activations queued
+                return [f"match {r.choice(refs)}.{r.choice(['Finished', 'Finished', 'Failed'])}()"]
             if k == "stop_id":
                 js = self.later(i, n)
                 if js:
@@ -191,6 +195,47 @@ class Gen:
             out.append("")
         return "\n".join(out)
 
+    def queued_family(self):
+        """Starts / activations that are still QUEUED when their sender is ended by a sibling within the same
+        external event.  g (f2) starts q (f3) and p2 (f4) and ends when q ends (Finished / Failed) or is stopped
+        by main on the same event; q and p2 react to the same event Ek; p2 then starts / activates the target
+        (f5), which is - or is not - already activated / started by another running flow p1 (f1).  The order in
+        which g starts q and p2 (the hierarchy order decides which internal event is processed first) varies."""
+        r = self.rng
+        k = r.randrange(NEV)
+        others = [e for e in range(NEV) if e != k]
+        self.with_param = set()
+        failed = r.random() < 0.3
+        how = r.choice(["wait", "wait", "wait", "stopped_by_main"])
+        p2_first = r.random() < 0.25
+        verb = r.choice(["activate f5", "activate f5", "start f5", "await f5", "start f5 and f6", "activate f5 and f6"])
+        p1 = r.choice(["activate f5", "activate f5", "start f5", None])
+        out = ["flow main"]
+        if p1:
+            out.append("  start f1")
+        out.append("  start f2 as $rg")
+        if how == "stopped_by_main":
+            out += [f"  match E{k}()", "  send $rg.Stop()"]
+        out += ["  match Never()", ""]
+        if p1:
+            out += ["flow f1", f"  {p1}", f"  match E{r.choice(others)}()", ""]
+        starts = ["  start f3 as $rq", "  start f4"]
+        if p2_first:
+            starts.reverse()
+        out += ["flow f2"] + starts
+        out.append(f"  match $rq.{'Failed' if failed else 'Finished'}()" if how == "wait" else "  match Never()")
+        out.append("")
+        out += ["flow f3", f"  match E{k}()"] + (["  abort"] if failed else []) + [""]
+        out += ["flow f4", f"  match E{k}()", f"  {verb}", f"  match E{r.choice(others)}()", ""]
+        out += ["flow f5", f"  match E{r.choice(others)}()"]
+        if r.random() < 0.5:
+            out.append(f"  start {self.action()}")
+        out += ["", "flow f6", f"  match E{r.choice(others)}()", ""]
+        hist = [["ev", k]] + [["ev", e] for e in r.sample(others, len(others))] + [["ev", r.randrange(NEV)] for _ in range(2)]
+        if r.random() < 0.3:
+            hist.insert(r.randrange(1, len(hist)), ["age", 0])
+        return "\n".join(out), hist
+
     def history(self, maxlen):
         """Adaptive items, resolved at run time against the actions seen so far:
         ev k | started i | finished i (any action started so far: before/after its Stop, early, late,
@@ -233,10 +278,10 @@ class Gen:
 
 FLOW_KINDS = (["match"] * 5 + ["start_flow"] * 3 + ["await_flow"] * 3 + ["activate"] * 3 + ["start_action"] * 4
               + ["await_action"] * 4 + ["group_flow"] * 2 + ["group_action"] * 2 + ["when"] * 4 + ["stop_ref"] * 1
-              + ["stop_id"] * 2 + ["abort"] * 1 + ["deactivate"] * 2 + ["stop_action_ref"] * 1)
+              + ["stop_id"] * 2 + ["abort"] * 1 + ["deactivate"] * 2 + ["stop_action_ref"] * 1 + ["match_ref"] * 3)
 MAIN_KINDS = (["match"] * 3 + ["start_flow"] * 5 + ["activate"] * 4 + ["start_action"] * 2 + ["group_flow"] * 2
               + ["when"] * 2 + ["stop_ref"] * 2 + ["stop_id"] * 2 + ["deactivate"] * 2 + ["await_flow"] * 1
-              + ["stop_action_ref"] * 1)
+              + ["stop_action_ref"] * 1 + ["match_ref"] * 2)
 BODY_KINDS = (["match"] * 4 + ["start_flow"] * 2 + ["await_flow"] * 1 + ["start_action"] * 3 + ["await_action"] * 2
               + ["abort"] * 1 + ["stop_ref"] * 1 + ["stop_action_ref"] * 1)
 
@@ -294,6 +339,17 @@ SEEDS = [
     # AGED parent/child family: the child of a flow that ended long ago, grandchildren
     ("flow main\n  start f1\n  match Never()\n\nflow f1\n  start f2\n  await f3\n  match E1()\n\nflow f2\n  start f3\n  match E2()\n\nflow f3\n  match E0()\n  await UtteranceBotAction(script=\"b\")\n",
      [["ev", 0], ["age", 0], ["ev", 3], ["ev", 2], ["age", 0], ["ev", 3], ["ev", 1]]),
+    # A start / activation QUEUED by a flow that is ended by a sibling within the same event: f2 waits for f3 to
+    # finish; f3 (earlier in the hierarchy) and f4 both react to E0; f4's `activate f5` / `start f5` is still queued
+    # when FlowFinished(f3) ends f2 and stops f4.  f5 is already activated by the running f1 / not activated.
+    ("flow main\n  start f1\n  start f2\n  match Never()\n\nflow f1\n  activate f5\n  match E2()\n\nflow f2\n  start f3 as $r1\n  start f4\n  match $r1.Finished()\n\nflow f3\n  match E0()\n\nflow f4\n  match E0()\n  activate f5\n  match E1()\n\nflow f5\n  match E3()\n  start UtteranceBotAction(script=\"a\")\n",
+     [["ev", 0], ["ev", 3], ["ev", 2], ["ev", 3]]),
+    ("flow main\n  start f2\n  match Never()\n\nflow f2\n  start f3 as $r1\n  start f4\n  match $r1.Finished()\n\nflow f3\n  match E0()\n\nflow f4\n  match E0()\n  activate f5\n  match E1()\n\nflow f5\n  match E3()\n  start UtteranceBotAction(script=\"a\")\n",
+     [["ev", 0], ["ev", 3], ["ev", 3]]),
+    ("flow main\n  start f1\n  start f2\n  match Never()\n\nflow f1\n  activate f5\n  match E2()\n\nflow f2\n  start f3 as $r1\n  start f4\n  match $r1.Failed()\n\nflow f3\n  match E0()\n  abort\n\nflow f4\n  match E0()\n  start f5\n  activate f5\n  match E1()\n\nflow f5\n  match E3()\n",
+     [["ev", 0], ["ev", 3], ["ev", 2], ["ev", 3]]),
+    ("flow main\n  start f1\n  start f3 as $r1\n  start f4\n  match E1()\n  send $r1.Stop()\n  match Never()\n\nflow f1\n  activate f5\n  match E2()\n\nflow f3\n  start f4 as $r2\n  match E0()\n  send $r2.Stop()\n\nflow f4\n  match E0()\n  activate f5\n  match E1()\n\nflow f5\n  match E3()\n",
+     [["ev", 0], ["ev", 3], ["ev", 2], ["ev", 3]]),
     # ... or is stopped by its parent
     ("flow main\n  start f1 as $r1\n  match E1()\n  send $r1.Stop()\n  match Never()\n\nflow f1\n  start UtteranceBotAction(script=\"a\") as $a1\n  start f2\n  match E0()\n  send $a1.Stop()\n  match Never()\n\nflow f2\n  await GestureBotAction(gesture=\"g\")\n",
      [["ev", 0], ["ev", 1], ["finished", 0]]),
@@ -1246,8 +1302,11 @@ def run(tier, seed, replay=None):
                 jobs.append({"job": len(jobs), "src": src, "history": hist, "policy": pol, "origin": "seed"})
     g = Gen(rng)
     for _ in range(nprog):
-        src = g.program()
-        hist = g.history(maxlen)
+        if rng.random() < 0.12:
+            src, hist = g.queued_family()
+        else:
+            src = g.program()
+            hist = g.history(maxlen)
         pol = rng.choice([0, 1, 2, 3])
         jobs.append({"job": len(jobs), "src": src, "history": hist, "policy": pol, "origin": "gen"})
 
